@@ -342,9 +342,27 @@ PARAM_MUTATION_ACCEPT = {
 def _check_class_level_mutables(prog: Program, res: Result):
     """R13.8: a list / dict / set written in a CLASS body is one object shared by every instance.  If a method changes it in
     place through self.<a> and no constructor of the class (or of a base) rebinds self.<a> first, every instance - every
-    design run of the process - appends to the same object."""
+    design run of the process - appends to the same object.  Likewise a method that assigns an attribute of a CLASS
+    (`SomeClass.attr = value`, `type(self).attr = value`, `cls.attr = value`) leaves state behind for every other instance."""
     from ..model import MUTATORS
 
+    class_names = {c.name for c in prog.classes.values()}
+    for q_, f_ in sorted(prog.funcs.items()):
+        for n_ in walk_no_nested(f_.node):
+            tgts = n_.targets if isinstance(n_, ast.Assign) else ([n_.target] if isinstance(n_, ast.AugAssign) else [])
+            for t_ in tgts:
+                if not isinstance(t_, ast.Attribute):
+                    continue
+                base = t_.value
+                on_class = (isinstance(base, ast.Name) and base.id in class_names and prog.resolve_name(f_.module, base.id) is not None and prog.resolve_name(f_.module, base.id)[0] == "class") \
+                    or (isinstance(base, ast.Name) and base.id == "cls") \
+                    or (isinstance(base, ast.Call) and attr_chain(base.func) == "type") \
+                    or (isinstance(base, ast.Attribute) and base.attr == "__class__")
+                if on_class:
+                    res.ob("R13.8", f"{q_}: assigns the class attribute {ast.unparse(t_)[:50]}", False, prog.loc(f_, n_))
+                    res.violation("R13.8", f"class-attribute-store|{q_}|{ast.unparse(t_)[:50]}", prog.loc(f_, n_), q_,
+                                  f"'{norm_stmt(n_)[:80]}' assigns an attribute of a class from inside a function: the value is seen by every other instance afterwards, "
+                                  "so a result depends on which objects were used before in the same process")
     n_cls = 0
     for cq, c in sorted(prog.classes.items()):
         n_cls += 1
@@ -879,6 +897,9 @@ def _check_nominal_height(prog: Program, res: Result):
 
 M = "ghedesigner.manager"
 VARIANTS = [
+    Variant("the last equivalent pipe conductivity is remembered on the class and narrows the next search (seeded C15_g)", "break",
+            [("ghedesigner.borehole_heat_exchangers", "class GHEDesignerBoreholeWithMultiplePipes(GHEDesignerBoreholeBase):\n", "class GHEDesignerBoreholeWithMultiplePipes(GHEDesignerBoreholeBase):\n    _k_p_equivalent = None\n\n"),
+             ("ghedesigner.borehole_heat_exchangers", "        return eq_single_u_tube\n\n    def match_effective_borehole_resistance", "        GHEDesignerBoreholeWithMultiplePipes._k_p_equivalent = eq_single_u_tube.pipe.k\n        return eq_single_u_tube\n\n    def match_effective_borehole_resistance")], "R13.8"),
     Variant("compute_g_functions writes the new curves into the existing g-function object (seeded C13_h)", "break",
             [(GHX, "        self.gFunction = g_function\n\n\nclass GHE(BaseGHE):", "        self.gFunction.g_lts = g_function.g_lts\n        self.gFunction.r_b_values = g_function.r_b_values\n\n\nclass GHE(BaseGHE):")], "R13.12"),
     Variant("compute_g_functions writes the new curves into the existing g-function object and empties its interpolation table", "benign",
